@@ -264,9 +264,9 @@ def fault_sig(ev):
     return 'total:%s/%d:%s:%s' % (ev['fn'], ev['arity'], ev['outcome'], where), dep
 
 
-def tla_event(ev):
-    return dict(f=ev['f'], fn=ev['fn'], arity=ev['arity'], pos=ev['pos'], vals=ev['vals'], outcome=ev['outcome'],
-                msg=re.sub(r'[^\x20-\x7e]', '?', ev['msg'][:100]))
+def tla_event(ev, f=None):
+    """<<f, fn, arity, pos, vals, outcome>> (Outcome.tla EvF..EvOutcome); the message stays in the evidence / replay files"""
+    return [f or ev['f'], ev['fn'], ev['arity'], ev['pos'], ev['vals'], ev['outcome']]
 
 
 def tla_cfg(cfg, mins, pairs):
@@ -517,12 +517,10 @@ def binding_demo(ctx, events, fns, pool, cfg, cfgt, extra, rejected_lines):
         remap[f['i']] = k + 1
     demo = []
     for e in (ea[0], eb[0], ea[1], eb[1]):
-        t = tla_event(e)
-        t['f'] = remap[e['f']]
-        demo.append(t)
+        demo.append(tla_event(e, remap[e['f']]))
     bad = copy.deepcopy(demo)
-    bad[1]['outcome'] = 'panic'
-    bad.append(dict(bad[2], outcome='hang'))
+    bad[1][5] = 'panic'
+    bad.append(bad[2][:5] + ['hang'])
     dinv = os.path.join(ctx.build, 'c13_demo_fns.ndjson')
     vlib.write_ndjson(dinv, demo_inv)
     dcfg = ('SPECIFICATION TSpec\nCONSTANTS FullClasses = {}\n WantPairs = FALSE\n MinGo = 0\n MinPublic = 0\n MinInternal = 0\n MinGenerated = 0\n'
@@ -539,9 +537,7 @@ def binding_demo(ctx, events, fns, pool, cfg, cfgt, extra, rejected_lines):
         if e['f'] in remap:
             nall += 1
             if e['f'] != victim['i']:
-                t = tla_event(e)
-                t['f'] = remap[e['f']]
-                kept.append(t)
+                kept.append(tla_event(e, remap[e['f']]))
     dp = os.path.join(ctx.build, 'c13_dropped.ndjson')
     vlib.write_ndjson(dp, kept)
     gp = os.path.join(ctx.build, 'c13_go_fns.ndjson')
